@@ -142,6 +142,34 @@ mod n {
         });
     }
 
+    // the sun due east / due west (prime vertical): sin(azimuth) reaches +-1, where rounding can leave the argument of
+    // asin a hair outside [-1, 1]
+    #[test]
+    fn n_c20_sun_prime_vertical() {
+        drive("C20.sunpos.prime_vertical", "sun_position / azimuth_sol_from_data where the sun crosses the prime vertical: latitude -66..66 step 0.5, declination -23..23 step 0.5 of the same sign and smaller than the latitude, hour angle +-acos(tan d / tan lat) and 0.01 degrees either side, morning and afternoon: azimuth finite and equal to spherical astronomy", |c| {
+            let lat = -66.0 + 0.5 * c.pick(265) as f64;
+            let decl = -23.0 + 0.5 * c.pick(93) as f64;
+            let side = c.of(&[1.0f64, -1.0]);
+            let nudge = c.of(&[0.0f64, 0.01, -0.01]);
+            if lat.abs() < 1.0 || decl.abs() < 0.25 || decl.signum() != lat.signum() || decl.abs() >= lat.abs() - 0.25 {
+                return;
+            }
+            let w = side * (rad(decl).tan() / rad(lat).tan()).acos().to_degrees() + nudge;
+            c.note(format!("lat {} decl {} hour angle {}", lat, decl, w));
+            let (e, nrt, up) = sun_vec(lat, decl, w);
+            let alt = up.asin().to_degrees();
+            if alt < 1.0 || alt > 85.0 {
+                return;
+            }
+            let az = e.atan2(-nrt).to_degrees();
+            let sp = sun_position(decl as f32, w as f32, crate::Location { latitude: lat as f32, longitude: 0.0, tz: 0 });
+            c.check("C20.sunpos.azimuth_finite", sp.azimuth.is_finite() && sp.altitude.is_finite(), || format!("sun_position gives azimuth {} altitude {} (astronomy: azimuth {} altitude {})", sp.azimuth, sp.altitude, az, alt));
+            c.check("C20.sunpos.azimuth", wrap180(sp.azimuth as f64 - az).abs() <= 0.5, || format!("azimuth {} want {} (altitude {})", sp.azimuth, az, alt));
+            c.nontrivial(format!("{} {} {} {}", lat, decl, side, nudge));
+            c.sample(|| format!("lat {} decl {} w {} -> azimuth {} (want {})", lat, decl, w, sp.azimuth, az));
+        });
+    }
+
     #[test]
     fn n_c20_incidence() {
         drive("C20.incidence", "angle_sol_surf vs the angle between the sun direction and the outward normal (tilt 0 = facing up, 90 = vertical; azimuth S=0, E=+90): latitude {-35,0,28.3,40.7,60}, declination {-23.45,0,23.45}, hour angle step 15, tilt {0,30,90,135,180}, azimuth step 45", |c| {
